@@ -633,6 +633,9 @@ class TranscriptInterval(AbstractFeatureInterval):
         if self.cds.chunk_relative_location == self.chunk_relative_location:
             return EmptyLocation()
         cds_inclusive_end_on_transcript = self.cds_pos_to_transcript(len(self.cds.chunk_relative_location) - 1)
+        # handle the edge case where the CDS reaches the 3' end of the transcript
+        if cds_inclusive_end_on_transcript + 1 == len(self._location):
+            return EmptyLocation()
         return self.chunk_relative_location.relative_interval_to_parent_location(
             cds_inclusive_end_on_transcript + 1, len(self._location), Strand.PLUS
         )
